@@ -431,8 +431,12 @@ def create_for_single_files_subcommand(
     assert len(single_file) != 0
 
     existing_history = MHLHistory.load_from_path(root_path)
+
+    # create the ignore specification
+    ignore_spec = ignore.MHLIgnoreSpec(existing_history.latest_ignore_patterns(), ignore_list, ignore_spec_file)
+
     # start a creation session on the existing history
-    session = MHLGenerationCreationSession(existing_history)
+    session = MHLGenerationCreationSession(existing_history, ignore_spec)
 
     num_failed_verifications = 0
 
